@@ -44,6 +44,19 @@ def operand_order_ok(f, call_args):
     return got == [0, 1], got
 
 
+def reorder(term, got):
+    """term over (x0, x1) when the callee actually receives children `got` as (first, second)"""
+    if got == [0, 1]:
+        return term
+    if sorted(got) != [0, 1]:
+        return None
+    def f(e):
+        if isinstance(e, tuple) and e and e[0] == 'x':
+            return ('x', got[e[1]], e[2], e[3])
+        return None
+    return O.subst(term, f)
+
+
 def split_ok(fn):
     """split(a, b) returns [a, b] in order"""
     if len(fn.node.body) == 1 and isinstance(fn.node.body[0], ast.Return) and isinstance(fn.node.body[0].value, (ast.List, ast.Tuple)):
@@ -61,28 +74,30 @@ def summarize_offline_handler(ix, f):
     if ks is not None:
         fn, args, kern, call = ks
         ok, got = operand_order_ok(f, args)
-        if not ok:
-            return ('unknown', 'kernel operands are children %s, not (left, right)' % got), None, 'slot-order'
         term = O.binary_function_term(fn.node)
         if term is None:
             return ('unknown', 'slot function %s not a simple expression' % fn.name), None, 'slot'
-        return ('pointwise', term), None, 'slot:' + fn.name
+        term = reorder(term, got)
+        if term is None:
+            return ('unknown', 'kernel operands are children %s' % got), None, 'slot-order'
+        return ('pointwise', term), None, 'slot:' + fn.name + ('' if ok else ' (operands swapped)')
     fh = forwarded_helper(ix, f)
     if fh is not None:
         h, call = fh
         ok, got = operand_order_ok(f, [ast.unparse(a) for a in call.args[:2]])
-        if len(call.args) >= 2 and not ok and h.name not in ('once_timed_operation', 'historically_timed_operation', 'always_timed_operation', 'eventually_timed_operation'):
-            return ('unknown', 'helper operands are children %s, not (left, right)' % got), None, 'helper-order'
         hk = kernel_slot(ix, h)
         if hk is not None:
             fn, args, kern, kcall = hk
             okh, goth = operand_order_ok(h, args)
-            if not okh:
-                return ('unknown', 'helper %s passes its parameters to the kernel as %s' % (h.name, goth)), None, 'helper-slot-order'
+            if sorted(got) != [0, 1] or sorted(goth) != [0, 1]:
+                return ('unknown', 'operands reach the kernel as %s / %s' % (got, goth)), None, 'helper-order'
+            eff = [got[goth[0]], got[goth[1]]]
             if fn.name == 'split':
                 if not split_ok(fn):
                     return ('unknown', 'split does not return [a, b]'), None, 'split'
                 nf2, p2 = O.summarize_dense(h.node, pair_of_values=True)
+                if nf2[0] != 'unknown' and eff != [0, 1]:
+                    nf2 = _reorder_nf(nf2, eff)
                 return nf2, p2, 'helper:%s+split' % h.name
             term = O.binary_function_term(fn.node)
             if term is None:
@@ -90,8 +105,20 @@ def summarize_offline_handler(ix, f):
             # a helper that only merges: pointwise
             loops = [s for s in h.node.body if isinstance(s, (ast.For, ast.While))]
             if not loops:
-                return ('pointwise', term), None, 'helper:%s:slot:%s' % (h.name, fn.name)
+                return ('pointwise', reorder(term, eff)), None, 'helper:%s:slot:%s' % (h.name, fn.name)
     return nf, partial, 'unknown'
+
+
+def _reorder_nf(nf, got):
+    def f(e):
+        if isinstance(e, tuple) and e and e[0] == 'x':
+            return ('x', got[e[1]], e[2], e[3])
+        return None
+    if nf[0] == 'pointwise':
+        return ('pointwise', O.subst(nf[1], f))
+    if nf[0] == 'scan':
+        return ('scan', nf[1], nf[2], O.subst(nf[3], f), nf[4] if nf[4] == 'out' else O.subst(nf[4], f))
+    return nf
 
 
 def predicate_table_offline(ix, f):
@@ -107,10 +134,9 @@ def predicate_table_offline(ix, f):
                     ok, got = operand_order_ok(f, [ast.unparse(a) for a in st.value.args[:2]])
                     okh, goth = operand_order_ok(ent, hk[1])
                     term = O.binary_function_term(fn.node)
-                    if ok and okh and term is not None:
-                        src_call = term
-                    else:
+                    if term is None or sorted(got) != [0, 1] or sorted(goth) != [0, 1]:
                         return ('unknown', 'operand order of the difference: %s / %s' % (got, goth)), None
+                    src_call = reorder(term, [got[goth[0]], got[goth[1]]])
     if src_call is None:
         return ('unknown', 'no difference signal'), None
     return O.summarize_dense(f.node, operands=src_call)
@@ -142,7 +168,8 @@ def summarize_online_operation(ix, cls):
         # operand order: buffers named after left/right parameters
         params = [a.arg for a in up.node.args.args[1:3]]
         want = ['self.%s_buf' % p for p in params]
-        if args != want:
+        if sorted(args) != sorted(want):
             return ('unknown', 'kernel called with %s, expected %s' % (args, want)), None, 'slot-order'
-        return ('pointwise', term), None, 'slot:' + fn.name
+        got = [want.index(a) for a in args]
+        return ('pointwise', reorder(term, got)), None, 'slot:' + fn.name
     return nf, partial, 'unknown'
